@@ -15,6 +15,7 @@ params:
              {"t":"timeout", "T": ticks}
              {"t":"cos"}
   subs     [{S: time, script: ["V"|"E"|"F",...], dur: ticks, nargs, nkw, kwnames: [...], K: [cancel times],
+             xcancel: {tap: i, at: t}  (somebody else cancels the future tap i returned),
              cb: bool, thread: client index, nested: bool (callable submits a probe to the same executor),
              fault: {site, k}}]
   shutdown {"at": t, "wait": bool, "repeat": n} | None
@@ -207,6 +208,21 @@ def build(p):
             E.vsleep(max(when - E.now(), 0))
             H.do_cancel(fut, j)
 
+        def xcanceller(j, tapi, when):
+            # somebody outside the stack cancels the future that tap `tapi` returned for submission j
+            from concurrent.futures import Future as _F
+            E.vsleep(max(when - E.now(), 0))
+            if tapi < 1 or tapi > len(taps):
+                return
+            cands = [f for f in taps[tapi - 1].futs if getattr(f, "_mxv_sub", None) == j]
+            if not cands:
+                E.emit("ExternalCancel", f=j, c=tapi, a=-1)
+                return
+            inner = cands[-1]
+            was_done = inner.done()
+            r = type(inner).cancel(inner) if not isinstance(inner, _F) or True else False
+            E.emit("ExternalCancel", f=j, c=tapi, a=1 if (r and not was_done) else 0)
+
         def mk_callable(j, sb):
             script = []
             for k, o in enumerate(sb["script"]):
@@ -235,6 +251,8 @@ def build(p):
                     H.add_cb(fut, j, 1)
                 for n, when in enumerate(sb.get("K", []) or []):
                     E.spawn("can%d_%d" % (j, n), canceller, j, fut, when, n)
+                if sb.get("xcancel"):
+                    E.spawn("xcan%d" % j, xcanceller, j, sb["xcancel"]["tap"], sb["xcancel"]["at"])
 
         ths = [E.spawn("client%d" % ci, client, ci) for ci in range(nclients)]
 
